@@ -105,6 +105,7 @@ package apk
 //@   ensures [C04] segment-is-block-aligned: implies(err == nil, len(globStr("compressedInput")) % 512 == 0)
 //@   ensures [C04] cut-segment-has-no-end-marker: implies(err == nil && kind == tarCut, globStr("compressedInput") == globStr("tarStreamAtClose") + ufStr("zeros", globInt("tarPadAtClose")))
 //@   ensures [C04] full-segment-ends-the-archive: implies(err == nil && kind == tarFull, globStr("compressedInput") == globStr("tarStreamAtClose") + ufStr("zeros", globInt("tarPadAtClose") + 1024))
+//@   ensures [C03 C10] digest-covers-the-shipped-bytes: implies(err == nil && old(ghostStr(w, "out")) == "" && old(ghostStr(digest, "out")) == "", ghostStr(digest, "out") == ghostStr(w, "out") && string(sum) == ufStr("extHashSum", ghostStr(w, "out")))
 //@   ensures [C06] loud: implies(err == nil, !ghostFlag("failed"))
 //
 //@ import "encoding/hex"
